@@ -43,8 +43,27 @@ func RunDirk(base string, args ...string) (string, string, int) {
 	return so.String(), se.String(), code
 }
 
+// Rules is an in-process handle on the slashing-protection database of a base directory.
+type Rules struct {
+	*standardrules.Service
+	stop context.CancelFunc
+}
+
+// Close closes the database and ends the service's watcher goroutine (so the closed database can be collected).
+func (r *Rules) Close(ctx context.Context) error {
+	err := r.Service.Close(ctx)
+	r.stop()
+	return err
+}
+
 // OpenRules opens the slashing-protection database of a base directory in-process.
-func OpenRules(base string) (*standardrules.Service, error) {
+func OpenRules(base string) (*Rules, error) {
 	Init()
-	return standardrules.New(context.Background(), standardrules.WithStoragePath(filepath.Join(base, "storage")))
+	ctx, cancel := context.WithCancel(context.Background())
+	svc, err := standardrules.New(ctx, standardrules.WithStoragePath(filepath.Join(base, "storage")))
+	if err != nil {
+		cancel()
+		return nil, err
+	}
+	return &Rules{Service: svc, stop: cancel}, nil
 }
